@@ -19,6 +19,32 @@ theorem gen_lon_region_eq_model (w e s n : Rat) : Gen.lonRegion w e s n = lonReg
   unfold Gen.lonRegion lonRegion
   cases h : allclose1 (ratAbs (e - w)) 360 <;> simp <;> split_ifs <;> simp_all
 
+/-- Bridge: the longitude branch (`% 360`, or shift to `[-180, 180)`) as regenerated from the source equals the model's. -/
+theorem gen_lon_point_eq_model (i360 : Bool) (lon : Rat) : Gen.lonPoint i360 lon = lonPoint i360 lon := by
+  unfold Gen.lonPoint lonPoint; cases i360 <;> simp
+
+/-- Bridge: `_check_geographic_region` as regenerated from the source equals the model's range checks. -/
+theorem gen_check_geo_region_eq_model (w e s n : Rat) : Gen.checkGeoRegion w e s n = checkGeoRegion w e s n := by
+  unfold Gen.checkGeoRegion checkGeoRegion
+  by_cases h1 : w > 360 ∨ e > 360 ∨ w < -180 ∨ e < -180
+  · have : ((w > 360 ∨ e > 360) ∨ w < -180 ∨ e < -180) := by tauto
+    simp [h1, this]
+  · have h1' : ¬ ((w > 360 ∨ e > 360) ∨ w < -180 ∨ e < -180) := by tauto
+    by_cases h2 : s > 90 ∨ n > 90 ∨ s < -90 ∨ n < -90
+    · have : ((s > 90 ∨ n > 90) ∨ s < -90 ∨ n < -90) := by tauto
+      simp [h1, h1', h2, this]
+    · have h2' : ¬ ((s > 90 ∨ n > 90) ∨ s < -90 ∨ n < -90) := by tauto
+      simp [h1, h1', h2, h2']
+
+/-- Bridge: `_check_geographic_coordinates` (regenerated, per point) rejects exactly the points the model's `lonContinuity`
+    rejects: longitude outside [-180, 360] or latitude outside [-90, 90]. -/
+theorem gen_geo_coord_bad_iff (lon lat : Rat) :
+    Gen.geoCoordBad lon lat = .error .valueError ↔ (lon > 360 ∨ lon < -180) ∨ (lat > 90 ∨ lat < -90) := by
+  unfold Gen.geoCoordBad
+  split_ifs with h
+  · simp [h]
+  · simp [h]
+
 def Congr360 (x y : Rat) : Prop := ∃ k : Int, x = y + 360 * (k : Rat)
 
 /-- Eastward angle from `w` to `e` (a full-globe input is 360). -/
